@@ -23,6 +23,8 @@ SEMANTIC = (
     "decreases not satisfied",
     "could not prove termination",
     "unreachable code may be reachable",
+    "unable to prove post-condition of closure",
+    "Call to non-static function fails to satisfy",
 )
 SAFETY = (
     "possible arithmetic underflow/overflow",
